@@ -123,10 +123,11 @@ namespace sim
     std::uint32_t count_mask2;
     bool          stream_faults;// iterator / generator events are fault eligible
     bool          clear_moved_from; // twin mode: the history clears the source of every move
+    unsigned      size_cap;     // histories keep containers below this size (64; some runs 600)
 
     run_cfg (void)
       : valmod (120), faults (false), nops (20), profile (0), count_mask1 (MASK_ALL),
-        count_mask2 (MASK_ALL), stream_faults (true), clear_moved_from (false)
+        count_mask2 (MASK_ALL), stream_faults (true), clear_moved_from (false), size_cap (64)
     { }
   };
 
